@@ -48,7 +48,7 @@ ModelConforms == Variant = "impl" => Conforms(Call)
 \* the loop over the responses in ANY order gives the order-free result
 OrderIndependent ==
     LET asked == AskedOf(nfound, ign) IN
-    (asked # {} /\ Cardinality(asked) <= OrderCap) =>
+    (asked # {} /\ Cardinality(asked) <= OrderCap /\ nfound <= CGS + 1) =>     \* (the loop does not look at nfound: small ones suffice)
         \A o \in SetToSeqs(asked) : LET a == CollectInOrder(o, resp, nfound)
                                         b == Collect(nfound, ign, resp)
                                     IN a.kind = b.kind /\ a.quotes = b.quotes
